@@ -6,6 +6,7 @@ import (
 	"os"
 	"path/filepath"
 	"strconv"
+	"strings"
 	"testing"
 	"time"
 )
@@ -124,6 +125,12 @@ func Worker(t *testing.T, e Engine) {
 		}
 	}
 	seenKey := map[string]bool{}
+	knownKeys := map[string]bool{}
+	for _, k := range strings.Split(os.Getenv("VERIF_KNOWN_KEYS"), ",") {
+		if k != "" {
+			knownKeys[k] = true
+		}
+	}
 	for i := int64(0); i < maxRuns; i++ {
 		if time.Since(start) > budget {
 			break
@@ -164,7 +171,7 @@ func Worker(t *testing.T, e Engine) {
 			tape := c.Tape.Values()
 			orig := len(tape)
 			nexec := 0
-			if os.Getenv("VERIF_NOSHRINK") == "" {
+			if os.Getenv("VERIF_NOSHRINK") == "" && !knownKeys[v.Key] {
 				tape, nexec = Shrink(tape, func(cand []uint32) bool {
 					cc := execRun(t, e, prop, tier, ReplayTape(cand), false)
 					for _, w := range cc.Viol {
